@@ -262,6 +262,15 @@ def c10 (op : String) (args : List Sexp) : Verdict :=
     | .list (.atom "corrupt" :: rest) => .oracle s!"a retained record whose bank was not closed changed: {Sexp.list rest}"
     | .list (.atom "panic" :: rest) => .oracle s!"reading the file panicked: {Sexp.list rest}"
     | _ => .bad s!"fileretain outcome {out}"
+  | "timeretain", [.atom codec, _, out] =>
+    match out with
+    | .list [.atom "ok", _, _, bl] =>
+      match kv "blocks=" bl with
+      | some bl => .ok s!"timeretain/{codec}/blocks{min bl 3}"
+      | none => .bad "timeretain outcome"
+    | .list (.atom "corrupt" :: rest) => .oracle s!"a retained record holding a time.Time changed while its bank was open (value, or the zone name reachable through its Location): {Sexp.list rest}"
+    | .list (.atom "panic" :: rest) => .oracle s!"reading the file panicked: {Sexp.list rest}"
+    | _ => .bad s!"timeretain outcome {out}"
   | _, _ => .bad s!"unknown case {op}"
 
 end Avro.Drv
